@@ -106,12 +106,13 @@ let attempts op b p s e a2 a3 rs re fexact : ((unit -> verdict) * (unit -> verdi
           let steps = if from_result then [ zi prt ] else schedule prt in
           ((fun () -> (if one_plus then check_ln1p else check_ln) (pos_of prt) (pos_of pra) (zi slack) from_result steps b p s e rs re fexact),
            (fun () -> (if one_plus then loose_ln1p else loose_ln) (pos_of prt) (pos_of pra) (zi slack) (schedule prt) b p s e rs re)) in
-      List.map attempt [ (48, true); (48, false); (200, false); (800, false) ]
+      (* starting from the implementation's own result only pays when it carries enough digits *)
+      List.map attempt ((if bits >= 24 then [ (48, true) ] else []) @ [ (48, false); (200, false); (800, false) ])
   | "powi" ->
       let n = a2 in
       let an = Zar.abs n in
       (* expanding s^|n| as an integer is only worth it while it stays small (I.fromZ is quadratic) *)
-      let exact_ok = Zar.equal (Zar.abs s) Zar.one || (Zar.numbits an < 40 && Zar.to_float an *. float_of_int (nb s) < 3.0e4) in
+      let exact_ok = Zar.equal (Zar.abs s) Zar.one || (Zar.numbits an < 40 && Zar.to_float an *. float_of_int (nb s) < 1.0e5) in
       let attempt mg =
         let pra = bits + mg + rbits + 4 * nb an + nb s + 64 in
         ((fun () -> check_powi (pos_of pra) exact_ok b p s e n rs re fexact),
@@ -122,7 +123,7 @@ let attempts op b p s e a2 a3 rs re fexact : ((unit -> verdict) * (unit -> verdi
       let exact_ok =
         Zar.sign ye >= 0 && Zar.numbits ye < 8 &&
         (let y = Zar.abs (Zar.mul ys (Zar.pow b (Zar.to_int ye))) in
-         Zar.equal (Zar.abs s) Zar.one || (Zar.numbits y < 40 && Zar.to_float y *. float_of_int (nb s) < 3.0e4)) in
+         Zar.equal (Zar.abs s) Zar.one || (Zar.numbits y < 40 && Zar.to_float y *. float_of_int (nb s) < 1.0e5)) in
       let attempt mg =
         if Zar.sign s <= 0 || Zar.sign ys = 0 then
           let pra = bits + mg + rbits + 64 in
